@@ -22,10 +22,26 @@ def run_streams(ck, streams, tier, seed, workers=8):
         ext = {"coqcases": ".v", "coqprint": ".v", "oracle": ".txt", "monitor": ".out"}[st["kind"]]
         path = os.path.join(C.CASES, "cases_%s_%s_%d%s" % (ck.pid, st["name"], sh, ext))
         args = st["args"](tier, seed, sh, path)
-        rc, rep, out, err = C.harness(args, timeout=st.get("timeout", 1500), race=st.get("race", False), env=st.get("env"))
+        cur = path + ".current"
+        if os.path.exists(cur):
+            os.remove(cur)
+        env = dict(st.get("env") or {}, VERIF_CURRENT=cur)
+        rc, rep, out, err = C.harness(args, timeout=st.get("timeout", 1500), race=st.get("race", False), env=env)
         res = dict(st=st, rep=rep, broken=None, extra_viol=[])
         if rep is None:
             res["broken"] = "%s: harness %s failed (rc=%s): %s" % (st["name"], args[0], rc, (out + err)[-600:])
+            # the harness process died (a Go panic in an engine goroutine cannot be recovered by the caller):
+            # the input it was working on is the failing input
+            if st["kind"] == "monitor" and os.path.exists(cur) and ("panic:" in err or "fatal error:" in err or "goroutine " in err):
+                try:
+                    inp = json.load(open(cur))
+                except Exception:
+                    inp = {"unreadable": cur}
+                pm = [l for l in err.splitlines() if l.startswith("panic:") or l.startswith("fatal error:")]
+                frames = [l.strip() for l in err.splitlines() if "/internal/" in l and ".go:" in l][:4]
+                res["rep"] = dict(command=args[0], cases=0, distinct=0, stats={}, samples=[], extra={},
+                                  violations=[dict(kind="engine-crashes", input=inp, detail=("; ".join(pm[:2]) + " at " + " <- ".join(frames))[:700])])
+                res["broken"] = None
             return res
         if st["kind"] == "coqcases":
             ok, cout = C.coq_eval_cases(path, timeout=st.get("coq_timeout", 2400))
